@@ -428,4 +428,25 @@ theorem next_mem_nextAll (toks : List String) : ∀ (n : Node),
 example : nextAll ["q", "a"] (.mk none [] [(":x", .mk none [("a", newNode (some 1))] []), (":y", .mk none [] [(":z", newNode (some 2))])])
     = [(1, [("x", "q")]), (2, [("z", "a"), ("y", "q")])] := by decide
 
+/-! ### a call that panics inside an option (`validateSecret`) -/
+
+/-- **A panicking `AddRoutes` / `AddRoute` registers nothing**, and a history with such calls is the history without
+them: every theorem about histories (`public_api_is_declarative_matcher`, `public_api_clauses`, `public_api_start`)
+applies to the calls that returned. -/
+theorem api_panicking_calls_register_nothing (ops : List ApiOp) : ∀ (a : Api),
+    ops.foldl Api.stepChecked a = (ops.filter fun op => !op.panics).foldl Api.step a := by
+  induction ops with
+  | nil => intro a; rfl
+  | cons op ops ih =>
+    intro a
+    simp only [List.foldl_cons, List.filter_cons]
+    cases hp : op.panics with
+    | true => simp only [Api.stepChecked, hp, if_true, Bool.not_true, Bool.false_eq_true, if_false]; exact ih a
+    | false =>
+      simp only [Api.stepChecked, hp, Bool.false_eq_true, if_false, Bool.not_false, if_true, List.foldl_cons]
+      exact ih _
+
+example : (ApiOp.add 0 [.pfx "/v1", .jwt "short"]).panics = true ∧ (ApiOp.add 0 [.jwtTransition "secret-aaaa" ""]).panics = false := by
+  decide
+
 end GoZero.C09
